@@ -1,22 +1,33 @@
 #!/usr/bin/env python3
-"""seedtest.py <seeded-dir> [prop ...] [--tier quick|thorough] — apply seeded/<id>/patch.diff to /repo, run the given
-checks (default: the property named in meta.json), undo the patch, and record what was reported in meta.json."""
+"""seedtest.py <seeded-dir> [prop ...] [--tier quick|thorough] [--worktree] — apply seeded/<id>/patch.diff to /repo (or, with
+--worktree, to a scratch git worktree of /repo HEAD handed to the checks through VERIF_REPO, so several can run side by side and
+/repo is never touched), run the given checks (default: the property named in meta.json), undo the patch, and record what was
+reported in meta.json."""
 import json, os, subprocess, sys
 V = os.path.dirname(os.path.dirname(os.path.abspath(__file__)))
 args = [a for a in sys.argv[1:] if not a.startswith('--')]
+use_wt = '--worktree' in sys.argv
 tier = 'quick'
 if '--tier' in sys.argv:
     tier = sys.argv[sys.argv.index('--tier') + 1]; args.remove(tier)
 d = os.path.abspath(args[0])
 meta = json.load(open(os.path.join(d, 'meta.json')))
 props = args[1:] or [meta['property']]
-assert subprocess.run(['git', '-C', '/repo', 'status', '--porcelain'], capture_output=True, text=True).stdout.strip() == '', '/repo not clean'
-subprocess.check_call(['git', '-C', '/repo', 'apply', os.path.join(d, 'patch.diff')])
+target = '/repo'
+env = dict(os.environ)
+if use_wt:
+    target = '/tmp/seedwt_' + os.path.basename(d)
+    subprocess.run(['git', '-C', '/repo', 'worktree', 'remove', '--force', target], capture_output=True)
+    subprocess.check_call(['git', '-C', '/repo', 'worktree', 'add', '--detach', target, 'HEAD'], stdout=subprocess.DEVNULL, stderr=subprocess.DEVNULL)
+    env['VERIF_REPO'] = target
+else:
+    assert subprocess.run(['git', '-C', '/repo', 'status', '--porcelain'], capture_output=True, text=True).stdout.strip() == '', '/repo not clean'
+subprocess.check_call(['git', '-C', target, 'apply', os.path.join(d, 'patch.diff')])
 res = {}
 try:
     for p in props:
         try:
-            r = subprocess.run([os.path.join(V, 'check'), p, '--tier', tier], cwd=V, capture_output=True, text=True, timeout=1500)
+            r = subprocess.run([os.path.join(V, 'check'), p, '--tier', tier], cwd=V, capture_output=True, text=True, timeout=1500, env=env)
         except subprocess.TimeoutExpired as e:
             import types
             subprocess.run('pkill -f "^/venv/bin/python /verif/check %s" ; pkill -x pffmodel' % p, shell=True)
@@ -26,7 +37,10 @@ try:
         # keep the first replay as a sample of what was reported
         print(p, r.returncode, lines[:2], r.stdout.strip().split('\n')[-1][:200])
 finally:
-    subprocess.check_call(['git', '-C', '/repo', 'checkout', '--', '.'])
+    if use_wt:
+        subprocess.run(['git', '-C', '/repo', 'worktree', 'remove', '--force', target], capture_output=True)
+    else:
+        subprocess.check_call(['git', '-C', '/repo', 'checkout', '--', '.'])
 meta.setdefault('check_results', {})[tier] = res
 meta['detected'] = any(v['exit'] != 0 for t in meta['check_results'].values() for v in t.values())
 json.dump(meta, open(os.path.join(d, 'meta.json'), 'w'), indent=1)
